@@ -844,7 +844,15 @@ class Executor:
                     val = bv(val, 8) if is_sym(val) else (1 if val else 0)
                 elif pt[0] == 'int' and is_sym(val) and pt[1] < 8 * nb:
                     val = z3.ZeroExt(8 * nb - pt[1], val)
-                self.store(st, self.const(st, pv, pty, env), val, nb); continue
+                sp = self.const(st, pv, pty, env)
+                if isinstance(sp, Ptr) and sp.reg is not None and is_sym(simp(sp.off)):
+                    r_ = st.regions[sp.reg]
+                    if isinstance(val, float) or (not r_.zero and len(r_.cells) * nb < r_.size):
+                        # store at a symbolic position into a region with uninitialised cells (or of a concrete floating-point value):
+                        # decided by forking over the feasible positions (the access itself is bounds-checked symbolically first)
+                        self._chk(st, sp, nb, 'store')
+                        sp = Ptr(sp.reg, self.concretize(st, sp.off, work, maxvals=64))
+                self.store(st, sp, val, nb); continue
             if k == 'atomicrmw':
                 _, dest, aop, pty, pv, ty, v = I
                 nb = m.tybytes(ty); ap = self.const(st, pv, pty, env)
